@@ -201,11 +201,11 @@ PROPS = {
                             "generation clause: the stored observedGeneration is not ahead of the object's generation (true of every object the controller itself wrote)"]},
     "C14": {"module": "Asts.Props.C14", "runs": [rc(proj=proj_create_delete), sy(quick=5000, thorough=60000, proj=proj_sync_pods)], "rule": RC_RULE + SY_L1,
             "assumptions": ["replicas present and >= 0 (CRD)", "wfSnapshot (every pod has a phase, ordinals distinct)",
-                            "pod ids are their positions in the snapshot and there are at most freshId pods (how the driver numbers pod objects; classify looks pods up by id)",
-                            "pod ordinals < MaxInt32 and replica count of GetMaxReplicaCountAndDeleteSlots <= MaxInt32 (no sentinel panic, see C15)"]},
+                            "pod ids are their positions in the snapshot and there are at most freshId pods (how the driver numbers pod objects; classify looks pods up by id)",]},
     "C15": {"module": "Asts.Props.C15", "runs": [rc(proj=proj_panic), sy(quick=6000, proj=proj_panic)], "rule": RC_RULE + " || " + SY_RULE,
-            "assumptions": ["replicas present (CRD: required)", "pod ordinals < MaxInt32 (the property's stated range)",
-                            "replicas + |slots| <= MaxInt32: the first-unhealthy scan also covers the fresh objects built for vacant slots, whose ordinals reach replicas+|slots|-1"]},
+            "assumptions": ["replicas present (CRD: required; the CRD facts of Gen/Crd.lean are re-checked by `decide` on every run)",
+                            "no bound on pod ordinals or on replicas + |slots| any more: the sentinel hypothesis the proof had forced was run on the real code, which panicked (one unhealthy pod at ordinal 2147483647), and the scan was repaired (fix 53b1b2a)",
+                            "memory exhaustion (a replica count near 2^31 makes the controller allocate a slice of that size) is a runtime limit, not a panic of the modelled logic"]},
     "C01": {
         "module": "Asts.Props.C01",
         "runs": [
